@@ -12,7 +12,6 @@ import (
 	_ "verif/checks/crashfree"
 	_ "verif/checks/extexit"
 	_ "verif/checks/histfile"
-	_ "verif/checks/jobs"
 	_ "verif/checks/redirect"
 	_ "verif/checks/scoping"
 	_ "verif/checks/structvars"
